@@ -9,8 +9,67 @@ from ..lean import fbits, cbits, parse_floats, run_driver
 ID = 'C03'
 DRIVERS = ('driver_em',)
 THEOREMS = [
+    'PbBss.C03.watson_rank',
+    'PbBss.C03.watson_rank_neg',
+    'PbBss.C03.watson_rank_scene',
+    'PbBss.C03.cacg_rank',
+    'PbBss.C03.cacg_rank_inverted',
+    'PbBss.C03.sph_rank',
+    'PbBss.C03.sph_rank_noise_free',
+    'PbBss.C03.diag_rank',
+    'PbBss.C03.diag_rank_noise_free',
+    'PbBss.C03.gauss_full_rank',
+    'PbBss.C03.gauss_full_rank_noise_free',
+    'PbBss.C03.vmf_rank',
+    'PbBss.C03.vmf_rank_neg',
+    'PbBss.C03.vmf_rank_scene',
+    'PbBss.C03.product_of_streams_rank',
+    'PbBss.C03.gcacg_rank_scene',
+    'PbBss.C03.vmfcacg_rank_scene',
+    'PbBss.C03.posterior_rank_iff',
+    'PbBss.C03.posterior_argmax',
+    'PbBss.C03.posterior_rank_affiliation',
+    'PbBss.C03.scatter_scene',
+    'PbBss.C03.scatter_phase_invariant',
+    'PbBss.C03.proto_eigenvector',
+    'PbBss.C03.top_eigenvector_scene',
+    'PbBss.C03.share_hard_start',
+    'PbBss.C03.gauss_mean_scene',
+    'PbBss.C03.gauss_mean_hard',
+    'PbBss.C03.watson_mstep_mass_dominant',
+    'PbBss.C03.watson_round_hard',
+    'PbBss.C03.watson_round_hard_uniform',
+    'PbBss.C03.fixed_point_chain_partial',
+    'PbBss.C03.fixed_point_watson_balanced',
+    'PbBss.C03.fixed_point_watson_balanced_hard',
+    'PbBss.C03.cacg_round_hard',
+    'PbBss.C03.cacg_round_hard_uniform',
 ]
 ASSUMPTIONS = [
+    'the theorems cover the RANKING MECHANISMS of the E-step (sign of the Watson / vMF concentration, reciprocal cACG '
+    'eigenvalues, whitening orientation P P^T of the Gaussian, product of streams, ranking of pi*exp(lp) = ranking of '
+    'posteriors) and the NOISE-FREE ORTHONORMAL core (z_n = u_n a_c(n), |u_n| = 1, prototypes orthonormal): scatter = '
+    'sum_j m_j a_j a_j^H, top eigenvector = prototype under mass dominance, one EM round of cWMM and cACGMM from the hard '
+    'true partition, and an n-step fixed point by induction for the balanced cWMM scene (uniform weights, equal class '
+    'masses, hard or uniform-leak blurred start); the quantitative statement for |cos| <= 0.3 and perturbation <= 1e-2 needs eigenvector perturbation bounds '
+    '(Davis-Kahan, not in Mathlib) and is supported by the search on the real code only',
+    'externals enter through contracts: get_pca returns a unit eigenvector whose eigenvalue is the maximum of the Rayleigh '
+    'quotient (PcaContract, on every weighted scatter of the data); np.linalg.eigh returns orthonormal columns that are '
+    'eigenvectors (EighSpec); the Watson spline kinv and normaliser lnorm are abstract functions, the only property used '
+    '(fixed_point_watson_balanced) is kinv x > 0 for 1/K < x <= 1; the precision-Cholesky factor satisfies P P^T = precision',
+    'fixed_point_chain_partial carries mass dominance of every E-step and an explicit weight/concentration margin for every '
+    'iterate as hypotheses (they can fail for extreme class-size imbalance under blur, where the literal property fails in '
+    'real arithmetic too); the blurred start is covered only through these hypotheses, the hard start unconditionally',
+    'no theorem for the complex Bingham model, nor for the M-steps of vMFMM, the full-covariance GMM and the two integration '
+    'models (no Em model; their E-step ranking is covered by vmf_rank / gauss_full_rank / gcacg_rank_scene / '
+    'vmfcacg_rank_scene); guards carried as hypotheses: tiny > 0, quadratic-form floor inactive (tiny <= 1), denominator '
+    'clamps inactive (tiny <= class mass, tiny <= 1/K), 0 < eigenvalue floor < 1',
+    'correspondence on C03\'s own domain (separable scenes, blurred true start, code iterate i -> model step -> code iterate '
+    'i+1, arg-max of the model E-step = arg-max of the code): cWMM, cACGMM, spherical / diagonal GMM; on this domain every '
+    'cWMM step from the second iterate on has its concentration clipped at max_concentration (guard): for guard-active '
+    'cases only the guard-independent parts are compared (E-step, arg-max, weights, PCA contract), and a stream of cWMM '
+    'scenes just outside the domain (perturbation 3e-2..1e-1) exercises the complete step; Float vs R rounding is outside '
+    'the theorems',
 ]
 
 ANGLE_TOL = 0.05            # rad; "small angle": 4x the largest value seen in 2 500 calibration scenes (0.016)
